@@ -1,6 +1,7 @@
 package main
 
 import (
+	"io"
 	"os"
 	"os/exec"
 	"path/filepath"
@@ -18,7 +19,11 @@ func init() {
 
 // input: (srcView priorView merge srcKind cap differ notify unpriv [collision])
 //
-//	srcKind 0 = synthetic in-memory FS, 1 = on-disk source through fsutil.NewFS
+//	srcKind 0 = synthetic in-memory FS, 1 = on-disk source through fsutil.NewFS; either a number or a
+//	        list (kind readerMode k): how the readers returned by the source's Open deliver the bytes
+//	        (c01ReaderFS) — 0 as the underlying reader, 1 at most k bytes per Read, 2 half of the
+//	        buffer per Read, 3 the last piece together with io.EOF, 4 = 1 and 3 combined.  The
+//	        specification does not depend on it: any io.Reader behaviour is legal for an fsutil.FS.
 //	differ  0 = DiffMetadata, 1 = DiffNone
 //
 // output: (send_err recv_err hung dest_raw reqs notifs)
@@ -140,7 +145,12 @@ func transfer0101(in Sx, work string) (out Sx) {
 	src := SxView(in.L[0])
 	prior := SxView(in.L[1])
 	merge := in.L[2].IsTrue()
-	srcKind := in.L[3].Int()
+	srcKind, rdMode, rdK := 0, 0, 0
+	if in.L[3].Kind == 'l' {
+		srcKind, rdMode, rdK = in.L[3].L[0].Int(), in.L[3].L[1].Int(), in.L[3].L[2].Int()
+	} else {
+		srcKind = in.L[3].Int()
+	}
 	capacity := in.L[4].Int()
 	differ := fsutil.DiffType(in.L[5].Int())
 	notify := in.L[6].IsTrue()
@@ -152,6 +162,9 @@ func transfer0101(in Sx, work string) (out Sx) {
 	if err := Materialize(prior, dest); err != nil {
 		return L(N(9), N(9), N(0), L(), L(), S("materialize prior: "+err.Error()))
 	}
+	if err := c01RelinkSpecial(prior, dest); err != nil {
+		return L(N(9), N(9), N(0), L(), L(), S("materialize prior links: "+err.Error()))
+	}
 	var fs fsutil.FS
 	if srcKind == 1 {
 		sdir := filepath.Join(work, "src")
@@ -161,6 +174,9 @@ func transfer0101(in Sx, work string) (out Sx) {
 		if err := Materialize(src, sdir); err != nil {
 			return L(N(9), N(9), N(0), L(), L(), S("materialize src: "+err.Error()))
 		}
+		if err := c01RelinkSpecial(src, sdir); err != nil {
+			return L(N(9), N(9), N(0), L(), L(), S("materialize src links: "+err.Error()))
+		}
 		var err error
 		fs, err = fsutil.NewFS(sdir)
 		if err != nil {
@@ -168,6 +184,9 @@ func transfer0101(in Sx, work string) (out Sx) {
 		}
 	} else {
 		fs = &MemFS{Roots: src}
+	}
+	if rdMode != 0 {
+		fs = &c01ReaderFS{FS: fs, mode: rdMode, k: rdK}
 	}
 	cfg := TransferCfg{Src: fs, Dest: dest, Merge: merge, Differ: differ, StreamCap: capacity, Notify: notify}
 	if unpriv {
@@ -180,6 +199,135 @@ func transfer0101(in Sx, work string) (out Sx) {
 	res := RunTransfer(cfg)
 	return L(errClass(res.SendErr), errClass(res.RecvErr), Bool(res.Hung), L(ReqIDs(res.Log)...), NotifsSx(res.Notifs))
 }
+
+// c01RelinkSpecial: Materialize gives every device / fifo entry an inode of its own; an entry of
+// that kind that carries a Linkname is a FURTHER NAME of the inode at that path (a link group of
+// a device or fifo): replace the separate node by a hard link, keeping the directory times.
+func c01RelinkSpecial(view []*MNode, root string) error {
+	var rec func(dir string, ns []*MNode) error
+	rec = func(dir string, ns []*MNode) error {
+		for _, n := range ns {
+			p := n.Name
+			if dir != "" {
+				p = dir + "/" + n.Name
+			}
+			m := os.FileMode(n.Stat.Mode)
+			if !m.IsDir() && m&os.ModeSymlink == 0 && m&os.ModeType != 0 && n.Stat.Linkname != "" {
+				abs := filepath.Join(root, p)
+				parent := filepath.Dir(abs)
+				var pst syscall.Stat_t
+				if err := syscall.Lstat(parent, &pst); err != nil {
+					return err
+				}
+				if err := os.Remove(abs); err != nil {
+					return err
+				}
+				if err := os.Link(filepath.Join(root, n.Stat.Linkname), abs); err != nil {
+					return err
+				}
+				ts := []syscall.Timespec{pst.Atim, pst.Mtim}
+				if err := syscall.UtimesNano(parent, ts); err != nil {
+					return err
+				}
+			}
+			if n.IsDir() {
+				if err := rec(p, n.Kids); err != nil {
+					return err
+				}
+			}
+		}
+		return nil
+	}
+	return rec("", view)
+}
+
+// c01ReaderFS wraps a source FS: Walk is the underlying one, the readers returned by Open deliver
+// the same bytes with another (legal) io.Reader behaviour.
+type c01ReaderFS struct {
+	fsutil.FS
+	mode, k int
+}
+
+func (f *c01ReaderFS) Open(p string) (io.ReadCloser, error) {
+	rc, err := f.FS.Open(p)
+	if err != nil {
+		return nil, err
+	}
+	return &c01Reader{rc: rc, mode: f.mode, k: f.k}, nil
+}
+
+type c01Reader struct {
+	rc      io.ReadCloser
+	mode, k int
+	pend    []byte // one piece read ahead (modes 3, 4: needed to know which piece is the last)
+	pendErr error
+	primed  bool
+}
+
+// piece reads the next piece of at most len(b) bytes according to the size rule of the mode.
+func (r *c01Reader) piece(b []byte) (int, error) {
+	switch r.mode {
+	case 1, 4:
+		if r.k > 0 && len(b) > r.k {
+			b = b[:r.k]
+		}
+	case 2:
+		b = b[:(len(b)+1)/2]
+	}
+	// fill the piece completely unless the data ends (so that the piece size is exactly the rule's)
+	n := 0
+	for n < len(b) {
+		m, err := r.rc.Read(b[n:])
+		n += m
+		if err != nil {
+			return n, err
+		}
+		if m == 0 {
+			break
+		}
+	}
+	return n, nil
+}
+
+func (r *c01Reader) Read(b []byte) (int, error) {
+	if len(b) == 0 {
+		return 0, nil
+	}
+	if r.mode != 3 && r.mode != 4 {
+		n, err := r.piece(b)
+		if n > 0 && err == io.EOF {
+			return n, nil // EOF alone on the next call
+		}
+		return n, err
+	}
+	// data together with io.EOF on the last piece: keep one piece ahead
+	if !r.primed {
+		tmp := make([]byte, len(b))
+		n, err := r.piece(tmp)
+		r.pend, r.pendErr, r.primed = tmp[:n], err, true
+	}
+	if len(r.pend) == 0 {
+		return 0, r.pendErr
+	}
+	n := copy(b, r.pend)
+	if n < len(r.pend) {
+		r.pend = r.pend[n:]
+		return n, nil
+	}
+	if r.pendErr != nil {
+		r.pend = nil
+		return n, r.pendErr
+	}
+	tmp := make([]byte, len(b))
+	m, err := r.piece(tmp)
+	r.pend, r.pendErr = tmp[:m], err
+	if m == 0 && err != nil {
+		return n, err // the piece just returned was the last one
+	}
+	return n, nil
+}
+
+func (r *c01Reader) Close() error { return r.rc.Close() }
 
 // mutateView derives a "dirty destination" from a source view: drop, retouch, rewrite,
 // retype entries, add strangers — over the same name universe so that every type pair collides.
@@ -265,8 +413,9 @@ func mutateView(r *Rng, v []*MNode, o TreeOpts) []*MNode {
 	return root.Kids
 }
 
-// fixLinks makes hard-link names consistent after mutation: a regular entry whose Linkname
-// does not name an earlier regular non-link entry of the view becomes a plain file.
+// fixLinks makes hard-link names consistent after mutation: a non-directory, non-symlink entry
+// (regular file, device, fifo) whose Linkname does not name an earlier non-link entry of that
+// kind becomes an inode of its own; a further name carries the stat of the inode it names.
 func fixLinks(roots []*MNode) {
 	seen := map[string]*MNode{}
 	var rec func(dir string, ns []*MNode)
@@ -277,7 +426,7 @@ func fixLinks(roots []*MNode) {
 				p = dir + "/" + n.Name
 			}
 			m := os.FileMode(n.Stat.Mode)
-			if m&os.ModeType == 0 {
+			if !m.IsDir() && m&os.ModeSymlink == 0 { // regular file, device, fifo: an inode that may have several names
 				if n.Stat.Linkname != "" {
 					if f, ok := seen[n.Stat.Linkname]; ok {
 						n.Stat = f.Stat.CloneVT()
@@ -345,7 +494,165 @@ func genSwapPrefix(r *Rng) (src, prior []*MNode) {
 	return sr.Kids, pr.Kids
 }
 
+// directed class: LINK GROUPS OF SPECIAL FILES in the source — a fifo, a character device and a
+// block device with two or three names each, across directories (the walker reports a Linkname
+// for every non-directory with more than one name), next to a regular link group and a lone
+// fifo — against a prior destination that lacks them, holds them, holds them as separate
+// inodes, holds some names only, holds a name as another type, or groups the names differently.
+func genSpecialLinks(r *Rng) (src, prior []*MNode, cls string) {
+	mt := func() int64 { return int64(1600000000+r.Intn(1000)) * 1e9 }
+	fifo := func(name string) *MNode {
+		return &MNode{Name: name, Stat: &types.Stat{Mode: uint32(os.ModeNamedPipe | 0640), Uid: 1, ModTime: mt()}}
+	}
+	dev := func(name string, char bool, maj, min int64) *MNode {
+		m := uint32(os.ModeDevice | 0600)
+		if char {
+			m |= uint32(os.ModeCharDevice)
+		}
+		return &MNode{Name: name, Stat: &types.Stat{Mode: m, Devmajor: maj, Devminor: min, ModTime: mt()}}
+	}
+	file := func(name, content string) *MNode {
+		return &MNode{Name: name, Stat: &types.Stat{Mode: 0644, Size: int64(len(content)), ModTime: mt()}, Content: []byte(content)}
+	}
+	dir := func(name string, kids ...*MNode) *MNode {
+		return &MNode{Name: name, Stat: &types.Stat{Mode: uint32(os.ModeDir | 0755), ModTime: mt()}, Kids: kids}
+	}
+	link := func(name string, to *MNode, path string) *MNode {
+		st := to.Stat.CloneVT()
+		st.Linkname = path
+		return &MNode{Name: name, Stat: st, Content: to.Content}
+	}
+	p, q, b, f := fifo("p"), dev("q", true, 1, 3), dev("b", false, 7, int64(r.Intn(4))), file("f", "shared")
+	three := r.Bool()
+	d1 := dir("d1", b, f, p, q)
+	d2kids := []*MNode{link("b2", b, "d1/b"), link("p2", p, "d1/p")}
+	if three {
+		d2kids = append(d2kids, link("q2", q, "d1/q"))
+	}
+	d2 := dir("d2", d2kids...)
+	src = []*MNode{d1, d2, fifo("lone"), link("zf", f, "d1/f"), link("zq", q, "d1/q")}
+	if three {
+		src = append(src, link("zp", p, "d1/p"))
+	}
+	clone := func(v []*MNode) []*MNode { return cloneView(v) }
+	each := func(v *[]*MNode, fn func(path string, n *MNode, holder *[]*MNode, i int) bool) {
+		var rec func(dirp string, ns *[]*MNode)
+		rec = func(dirp string, ns *[]*MNode) {
+			for i := 0; i < len(*ns); i++ {
+				n := (*ns)[i]
+				pp := n.Name
+				if dirp != "" {
+					pp = dirp + "/" + n.Name
+				}
+				if fn(pp, n, ns, i) {
+					*ns = append((*ns)[:i:i], (*ns)[i+1:]...)
+					i--
+					continue
+				}
+				if n.IsDir() {
+					rec(pp, &n.Kids)
+				}
+			}
+		}
+		rec("", v)
+	}
+	switch r.Intn(7) {
+	case 0:
+		cls = "fresh"
+	case 1: // the destination already holds everything
+		prior = clone(src)
+		cls = "dirty-same"
+	case 2: // every name an inode of its own
+		prior = clone(src)
+		each(&prior, func(_ string, n *MNode, _ *[]*MNode, _ int) bool {
+			if os.FileMode(n.Stat.Mode)&os.ModeSymlink == 0 {
+				n.Stat.Linkname = ""
+			}
+			return false
+		})
+		cls = "dirty-groups-split"
+	case 3: // some names missing (first names too)
+		prior = clone(src)
+		each(&prior, func(_ string, n *MNode, _ *[]*MNode, _ int) bool { return !n.IsDir() && r.Chance(40) })
+		cls = "dirty-names-missing"
+	case 4: // a name of a group is a regular file / a directory in the destination
+		prior = clone(src)
+		each(&prior, func(_ string, n *MNode, _ *[]*MNode, _ int) bool {
+			if !n.IsDir() && n.Stat.Linkname != "" && r.Chance(50) {
+				if r.Bool() {
+					n.Stat = &types.Stat{Mode: 0600, Size: 3, ModTime: mt()}
+					n.Content = []byte("old")
+				} else {
+					n.Stat = &types.Stat{Mode: uint32(os.ModeDir | 0700), ModTime: mt()}
+					n.Content = nil
+				}
+			}
+			return false
+		})
+		cls = "dirty-name-retyped"
+	case 5: // the names are grouped differently: zp is a name of the lone fifo, zq and d2/b2 inodes of their own
+		prior = clone(src)
+		var lone *MNode
+		each(&prior, func(pp string, n *MNode, _ *[]*MNode, _ int) bool {
+			switch pp {
+			case "lone":
+				lone = n
+			case "zp":
+				n.Stat = lone.Stat.CloneVT()
+				n.Stat.Linkname = "lone"
+			case "zq", "d2/b2":
+				n.Stat.Linkname = ""
+			}
+			return false
+		})
+		cls = "dirty-regrouped"
+	case 6: // metadata of a group edited (mode / owner / device number)
+		prior = clone(src)
+		each(&prior, func(_ string, n *MNode, _ *[]*MNode, _ int) bool {
+			m := os.FileMode(n.Stat.Mode)
+			if !n.IsDir() && m&os.ModeType != 0 && n.Stat.Linkname == "" && r.Bool() {
+				switch r.Intn(3) {
+				case 0:
+					n.Stat.Mode ^= 0022
+				case 1:
+					n.Stat.Uid += 3
+				case 2:
+					if m&os.ModeDevice != 0 {
+						n.Stat.Devminor += 8
+					} else {
+						n.Stat.ModTime += 5
+					}
+				}
+			}
+			return false
+		})
+		cls = "dirty-group-metadata"
+	}
+	pr := &MNode{Kids: prior}
+	sortKids(pr)
+	fixLinks(pr.Kids)
+	sr := &MNode{Kids: src}
+	sortKids(sr)
+	return sr.Kids, pr.Kids, "directed-special-link-groups-" + cls
+}
+
 func genC01(g *Gen) {
+	for i := g.Vol(90, 1200); i > 0; i-- {
+		r := g.Rng
+		src, prior, cls := genSpecialLinks(r)
+		merge := r.Chance(25)
+		if merge {
+			cls += "+merge"
+		}
+		srcKind := 0
+		if r.Chance(50) {
+			srcKind = 1
+			cls += "+disk"
+		}
+		coll := c01Collision(src, prior)
+		in := L(ViewSx(src), ViewSx(prior), Bool(merge), NI(srcKind), NI(Pick(r, []int{0, 1, 32})), NI(0), Bool(r.Chance(30)), Bool(false), Bool(coll))
+		g.Emit(0x0101, in, prior != nil && (merge || !coll), cls)
+	}
 	for i := g.Vol(120, 1500); i > 0; i-- {
 		src, prior := genSwapPrefix(g.Rng)
 		in := L(ViewSx(src), ViewSx(prior), Bool(false), NI(0), NI(16), NI(0), Bool(false), Bool(false))
@@ -406,7 +713,15 @@ func genC01(g *Gen) {
 		if coll && !merge {
 			cls = "excluded-identity-collision(" + cls + ")"
 		}
-		in := L(ViewSx(src), ViewSx(prior), Bool(merge), NI(srcKind), NI(Pick(r, []int{0, 1, 32, 64})), NI(0), Bool(r.Chance(30)), Bool(unpriv), Bool(coll))
+		// reader behaviour of the source (any io.Reader is legal for an fsutil.FS)
+		sk := NI(srcKind)
+		if r.Chance(50) {
+			mode := 1 + r.Intn(4)
+			k := Pick(r, []int{1, 7, 4096, 32767})
+			sk = L(NI(srcKind), NI(mode), NI(k))
+			cls += []string{"", "+rd-cap", "+rd-half", "+rd-dataeof", "+rd-cap-dataeof"}[mode]
+		}
+		in := L(ViewSx(src), ViewSx(prior), Bool(merge), sk, NI(Pick(r, []int{0, 1, 32, 64})), NI(0), Bool(r.Chance(30)), Bool(unpriv), Bool(coll))
 		nontriv := prior != nil && len(WalkEntries(prior)) >= 2 && (merge || !coll)
 		g.Emit(0x0101, in, nontriv, cls)
 	}
